@@ -41,6 +41,9 @@ type CrashResult struct {
 	Final    *Result          `json:"final,omitempty"`
 	Note     string           `json:"note,omitempty"`
 	Marked   int              `json:"marked_chunks_checked"`
+	LastMarked int            `json:"last_marked"`   // chunks marked on disk before the final resumed run
+	LastTotal  int            `json:"last_total"`    // total chunks of the files that have a readable sidecar then
+	AllChunks  int            `json:"all_chunks"`    // total chunks of the whole manifest
 }
 
 func runChild(c Case) (killed bool, res *Result, note string) {
@@ -110,6 +113,8 @@ func inspect(c Case, m manifest.Manifest, outTree string, res *CrashResult) {
 			}
 		}
 		res.Sidecars = append(res.Sidecars, fmt.Sprintf("%s:%d/%d", e.Name(), nm, sc.TotalChunks))
+		res.LastMarked += nm
+		res.LastTotal += int(sc.TotalChunks)
 	}
 }
 
@@ -166,11 +171,20 @@ func runCrash(cc CrashCase) (res CrashResult) {
 			res.Note += note + "; "
 		}
 		_ = r
+		res.LastMarked, res.LastTotal = 0, 0
 		inspect(c, m, outTree, &res)
+	}
+	chunk := c.Chunk
+	if chunk == 0 {
+		chunk = 64
+	}
+	for _, f := range c.Files {
+		res.AllChunks += int((f.N + int64(chunk) - 1) / int64(chunk))
 	}
 	if cc.Resume {
 		fc := c
 		fc.TimeoutMs = 6000
+		fc.CountHits = true
 		_, r, note := runChild(fc)
 		if note != "" {
 			res.Note += note
